@@ -25,6 +25,8 @@ ASSUMPTIONS = [
     "re-chunking of a Dask argument (validate_arrays, proximity single-block fallback) changes no value and is allowed",
     "local.* take a Dataset: checked for non-mutation and non-aliasing, and for shape/dims/coords of the layers",
     "generators are given float templates only (integer templates are outside their documented domain)",
+    "kernel arrays passed to focal/convolution functions are treated as inputs too (the property's title: functions never "
+    "modify their inputs): they must come back unchanged",
     "a call that rejects a dtype/layout by raising is not a violation as long as its arguments are unchanged afterwards",
     "read-only inputs: a function that needs to write into its input would raise — counted as a violation only when the "
     "same call succeeds on the writable C-ordered array (then the read-only failure reveals an in-place write)",
@@ -187,8 +189,10 @@ def observe(fn, rasters, base_arrays):
     """Run fn on rasters under the monitor. -> (status, problems, out)
     status: 'ok' | 'raised:<Type>' ; problems: list of (kind, message)."""
     import dask.array as da
+    from ._funcs import AUX
     snaps = [snapshot(r) for r in rasters]
     base_before = [None if b is None else np.array(b, copy=True) for b in base_arrays]
+    aux_before = {k: (np.array(v, copy=True), v.dtype, v.flags.writeable) for k, v in AUX.items()}
     problems = []
     try:
         out = fn.call(rasters)
@@ -262,6 +266,12 @@ def observe(fn, rasters, base_arrays):
     d = identity_diff(fn, snaps[0], out)
     if d:
         problems.append(("identity", d))
+    # caller-owned non-raster array arguments (kernels) must come back unchanged as well
+    for k, (before, dt, wr) in aux_before.items():
+        now = AUX[k]
+        if now.dtype != dt or not np.array_equal(now, before):
+            problems.append(("mutated-kernel", "the caller's kernel array %s was modified by the call" % k))
+            now[...] = before          # restore for the following cases of this worker
     return status, problems, mat
 
 
